@@ -36,7 +36,7 @@ def fresh():
         shutil.copy("/verif/harness/Cargo.toml", f"{CF}/harness/Cargo.toml")
         sh(f"sed -i 's#\"/repo#\"{CF}/repo#' {CF}/harness/Cargo.toml")
 
-EXTRA = {"C01": ["vp-mojang", "vp-net"], "C06": ["vp-net"], "C10": ["vp-net"], "C14": ["vp-conn"], "C15": ["vp-grpc"], "C03": ["vp-net"], "C11": ["vp-mojang", "vp-conn"], "C05": ["vp-conn", "vp-net"], "C13": ["vp-net"], "C02": ["vp-net"], "C12": ["vp-conn"], "C18": ["vp-conn"], "C04": ["vp-net"], "C08": ["vp-net"], "C09": ["vp-conn"]}  # sub-runs that ./check performs for a property besides its main monitor
+EXTRA = {"C01": ["vp-mojang", "vp-net"], "C06": ["vp-net"], "C10": ["vp-net"], "C14": ["vp-conn"], "C15": ["vp-grpc"], "C03": ["vp-net"], "C11": ["vp-mojang", "vp-conn", "vp-net"], "C05": ["vp-conn", "vp-net"], "C13": ["vp-net"], "C02": ["vp-net"], "C12": ["vp-conn"], "C18": ["vp-conn"], "C04": ["vp-net"], "C08": ["vp-net"], "C09": ["vp-conn"]}  # sub-runs that ./check performs for a property besides its main monitor
 
 def run_one(pkg, prop, tier):
     rc, out = sh(f"CARGO_TARGET_DIR={CF}/htarget cargo build --offline --profile verif -p {pkg}", cwd=f"{CF}/harness")
